@@ -103,6 +103,8 @@ Definition is_modelled (v : varlist) : bool := match v with Vars _ => true | Not
 Definition varlen (v : varlist) : nat := match v with Vars l => List.length l | NotModelled k => k end.
 Definition var_at (v : varlist) (m : nat) : Q := match v with Vars l => nthq l m | NotModelled _ => 0 end.
 
+Definition same_len (a b : list Q) : bool := Nat.eqb (List.length a) (List.length b).
+
 Definition Qabs'' (x : Q) : Q := if Qle_bool 0 x then x else - x.
 Definition all_b (p : Q -> bool) (l : list Q) : bool := forallb p l.
 
@@ -127,6 +129,8 @@ Definition extract (x : rep_in) : result extracted :=
   let cr_f := create_food_kcals n km (v_cr_f x) in
   (* production (billion kcals) minus feed and biofuel (billion people fed): as the code does *)
   let prod_h := lsub (lsub (r_crops_prod x) cr_f) cr_b in
+  (* np.subtract refuses arrays of different lengths *)
+  if negb (same_len (r_crops_prod x) cr_f && same_len (r_crops_prod x) cr_b) then Rejected ValueRejected else
   let split :=
     if negb (is_modelled (v_cr_h x)) && Qeq_bool (lsum prod_h) 0
     then Ok (repeat 0 (varlen (v_cr_h x)), repeat 0 (varlen (v_cr_h x)))
@@ -166,8 +170,6 @@ Definition nonneg_all (l : list Q) : bool := all_b (Qle_bool 0) l.
 (* stored_food + outdoor_crops + seaweed + cell_sugar + scp + greenhouse + fish + meat + milk *)
 Definition sum9 (sf cr sw cs scp gh fish meat milk : list Q) : list Q :=
   ladd (ladd (ladd (ladd (ladd (ladd (ladd (ladd sf cr) sw) cs) scp) gh) fish) meat) milk.
-
-Definition same_len (a b : list Q) : bool := Nat.eqb (List.length a) (List.length b).
 
 Definition interpret (c : conv) (e : extracted) : result interpreted :=
   let pc := lscale (m_bf_pct c) in
